@@ -77,9 +77,12 @@ type c12World struct {
 // the request until the driver discards it.
 type c12HandlerFunc struct{ fn func(ctx data.Context) }
 
-func (f c12HandlerFunc) Call(ctx data.Context) (data.GetValue, data.Control) { f.fn(ctx); return nil, nil }
-func (c12HandlerFunc) GetName() string                                        { return "handler" }
-func (c12HandlerFunc) GetParams() []data.GetValue                             { return nil }
+func (f c12HandlerFunc) Call(ctx data.Context) (data.GetValue, data.Control) {
+	f.fn(ctx)
+	return nil, nil
+}
+func (c12HandlerFunc) GetName() string            { return "handler" }
+func (c12HandlerFunc) GetParams() []data.GetValue { return nil }
 func (c12HandlerFunc) GetVariables() []data.Variable {
 	return []data.Variable{data.NewVariable("r", 0, nil), data.NewVariable("w", 1, nil)}
 }
